@@ -22,7 +22,7 @@ ASSUMPTIONS = [
     "delay(x, k*dt, init) = x at index i-k, init (or x at start when omitted) before; durations are multiples of dt",
     "smooth/trend = first-order exponential average s += dt*(x-s)/T with the given initial value",
     "ill-conditioned references (comparison ties within 1e-6, |v| > 1e9, division by ~0) are discarded and counted",
-    "values compared with relative tolerance 1e-9; grid labels exactly",
+    "values compared with relative tolerance 1e-9 (or absolutely within 1e-13 * largest trajectory magnitude * (n+1) where sums cancel); grid labels exactly",
 ]
 
 
@@ -49,13 +49,14 @@ def _flow_nonconstant(case):
 
 def compare(name, got_map, ref, grid, vs, how, case):
     """got_map: dict name -> list of values aligned with grid"""
+    scale = SM.model_scale(ref)
     for el, vals in got_map.items():
         want = ref[el]
         if len(vals) != len(want):
             vs.append(Violation("grid:%s" % how, "%s: %d values for %s, expected %d" % (how, len(vals), el, len(want))))
             return
         for i, (g, w) in enumerate(zip(vals, want)):
-            if not E.close(g, w, 1e-9):
+            if not SM.values_agree(g, w, scale, case["n"]):
                 kinds = {a["name"]: a["kind"] for a in case["aux"]}
                 kind = kinds.get(el, "stock" if el.startswith("s") else "constant")
                 feats = sorted(SM.features(case) - {"converter", "flow", "biflow"})
